@@ -103,7 +103,7 @@ def counterexample(doc, f, r, work, root, repo):
     if inp is None:
         inp = trace_inputs(d, os.path.join(d, 'b.gb') if os.path.exists(os.path.join(d, 'b.gb')) else os.path.join(d, 'a.gb'), f['obligation'], ob, list(r.get('cbmc_flags', [])), entry)
     doc['inputs'] = inp
-    if inp is None:
+    if inp is None and not getattr(fam0, 'optional_trace', False):
         doc['native'] = 'no-counterexample'; return
     fam = family_of(r, root)
     if fam is None:
@@ -573,8 +573,124 @@ def status_replay(doc, inp, r, work, root, repo):
     doc['native'] = 'not-reproduced'; doc['native_observed'] = p.stdout.decode()[-200:]
 status_replay.history_search = True
 
+# ----------------------------------------------------------------------------- family: TECMP decoding / conversion (C15, TECMP part of C02)
+TECMP_DRIVER = r"""
+using namespace ASAM::CMP;
+static uint32_t be32(const uint8_t* p) { return ((uint32_t)p[0] << 24) | ((uint32_t)p[1] << 16) | ((uint32_t)p[2] << 8) | p[3]; }
+static uint64_t be64(const uint8_t* p) { return ((uint64_t)be32(p) << 32) | be32(p + 4); }
+// independent TECMP parse (DESIGN.md Appendix D): what each returned packet has to report
+struct Want { int kind; uint16_t dev; uint64_t ts; uint32_t ifid; uint32_t id; std::vector<uint8_t> data; uint8_t cks; uint32_t msgs, errs; std::string serial, hw, sw; };
+static std::vector<Want> parse(const uint8_t* f, size_t size) {
+  std::vector<Want> w;
+  if (size < 28) return w;
+  size_t plen = ((size_t)f[24] << 8) | f[25];
+  if (plen == 0 || size < 28 + plen) return w;
+  unsigned mt = f[5], dt = ((unsigned)f[6] << 8) | f[7];
+  if (mt == 0xFF || (f[6] == 0xFF && f[7] == 0x00)) return w;      // header the library treats as invalid (no packet either way)
+  const uint8_t* p = f + 28; size_t m = size - 28;
+  Want b{}; b.dev = f[1]; b.ifid = be32(f + 12); b.ts = be64(f + 16);
+  if (mt == 1) { if (m >= 18) { b.kind = 1; b.serial = std::to_string(be32(p + 8)); b.sw = "v" + std::to_string(p[13]) + "." + std::to_string(p[14]) + "." + std::to_string(p[15]); b.hw = "v" + std::to_string(p[16]) + "." + std::to_string(p[17]); w.push_back(b); } }
+  else if (mt == 3 && (dt == 2 || dt == 3)) { if (m >= 5 && (size_t)p[4] <= m - 5) { b.kind = p[4] > 8 ? 3 : 2; b.id = be32(p) & 0x1FFFFFFFu; b.data.assign(p + 5, p + 5 + p[4]); w.push_back(b); } }
+  else if (mt == 3 && dt == 4) { if (m >= 2 && (size_t)p[1] <= m - 2) { b.kind = 4; b.id = p[0] & 0x3F; b.data.assign(p + 2, p + 2 + p[1]); b.cks = m > 2u + p[1] ? p[2 + p[1]] : 0; w.push_back(b); } }
+  else if (mt == 2) { for (size_t o = 12; m >= 12 && o + 12 <= m; o += 12) { Want e = b; e.kind = 5; e.ifid = be32(p + o); e.msgs = be32(p + o + 4); e.errs = be32(p + o + 8); w.push_back(e); } }
+  return w;
+}
+static int bad;
+#define CHECK(c, ...) do { if (!(c)) { printf("VIOLATED: " __VA_ARGS__); printf("\n"); ++bad; } } while (0)
+int main(int argc, char** argv) {
+  auto in = unhex(argv[1]); std::vector<uint8_t> copy(in);          // exact-size heap copy: any read past the frame is an ASan report
+  auto want = parse(copy.data(), copy.size());
+  Decoder dec; auto got = dec.decode(copy.data(), copy.size());
+  CHECK(got.size() == want.size(), "%zu packets returned, the TECMP parse expects %zu", got.size(), want.size());
+  for (size_t i = 0; i < got.size() && i < want.size(); ++i) {
+    const Packet& p = *got[i]; const Want& w = want[i];
+    CHECK(p.getDeviceId() == w.dev, "packet %zu: device id %u, wire %u", i, p.getDeviceId(), w.dev);
+    CHECK(p.getTimestamp() == w.ts, "packet %zu: timestamp", i);
+    CHECK(p.getInterfaceId() == w.ifid, "packet %zu: interface id %u, wire %u", i, p.getInterfaceId(), w.ifid);
+    if (w.kind == 2 || w.kind == 3) {
+      CHECK(p.getPayload().getType() == (w.kind == 2 ? PayloadType::can : PayloadType::canFd), "packet %zu: payload kind", i);
+      auto& c = static_cast<const CanPayloadBase&>(p.getPayload());
+      CHECK(c.getId() == w.id, "packet %zu: arbitration id %u, wire %u", i, c.getId(), w.id);
+      CHECK(c.getDataLength() == w.data.size(), "packet %zu: data length %u, wire %zu", i, c.getDataLength(), w.data.size());
+      CHECK(c.getDataLength() != w.data.size() || memcmp(c.getData(), w.data.data(), w.data.size()) == 0 || w.data.empty(), "packet %zu: data bytes", i);
+    } else if (w.kind == 4) {
+      CHECK(p.getPayload().getType() == PayloadType::lin, "packet %zu: payload kind", i);
+      auto& l = static_cast<const LinPayload&>(p.getPayload());
+      CHECK(l.getLinId() == w.id, "packet %zu: LIN id", i); CHECK(l.getChecksum() == w.cks, "packet %zu: LIN checksum %u, wire %u", i, l.getChecksum(), w.cks);
+      CHECK(l.getDataLength() == w.data.size(), "packet %zu: data length", i);
+      CHECK(l.getDataLength() != w.data.size() || w.data.empty() || memcmp(l.getData(), w.data.data(), w.data.size()) == 0, "packet %zu: data bytes", i);
+    } else if (w.kind == 5) {
+      CHECK(p.getPayload().getType() == PayloadType::ifStatMsg, "packet %zu: payload kind", i);
+      auto& f = static_cast<const InterfacePayload&>(p.getPayload());
+      CHECK(f.getInterfaceId() == w.ifid && f.getMsgTotalRx() == w.msgs && f.getErrorsTotalRx() == w.errs, "packet %zu: interface id / counters", i);
+    } else if (w.kind == 1) {
+      CHECK(p.getPayload().getType() == PayloadType::cmStatMsg, "packet %zu: payload kind", i);
+      auto& c = static_cast<const CaptureModulePayload&>(p.getPayload());
+      CHECK(std::string(c.getSerialNumber()) == w.serial, "packet %zu: serial number '%s', wire '%s'", i, std::string(c.getSerialNumber()).c_str(), w.serial.c_str());
+      CHECK(std::string(c.getHardwareVersion()) == w.hw && std::string(c.getSoftwareVersion()) == w.sw, "packet %zu: version strings", i);
+    }
+  }
+  printf("packets=%zu violations=%d\n", got.size(), bad); return bad ? 3 : 0;
+}
+"""
+
+def san_summary(err):
+    """head of a sanitizer report: the error line and the first stack frames (the shadow-memory dump at the end says nothing)"""
+    L = err.split('\n'); keep = []
+    for i, l in enumerate(L):
+        if 'does not point to an object of type' in l: continue      # UBSan vptr check on the library's down-casts of sliced Payload objects: not a memory error
+        if 'ERROR: AddressSanitizer' in l or 'runtime error:' in l or 'SUMMARY:' in l or re.match(r'^(READ|WRITE) of size', l) or re.match(r'^\s+#[0-5] ', l): keep.append(l.strip())
+    return '\n'.join(keep[:16])[:1500] or err[-600:]
+
+def tecmp_frames(payload, first=None):
+    """candidate frames around a counterexample payload: every supported and some unsupported kinds, and every truncation of the payload"""
+    frames = []
+    kinds = ((3, 2), (3, 3), (3, 4), (1, 0), (2, 0), (3, 0x80), (3, 0xFF), (3, 8), (4, 0), (0, 0), (10, 2))
+    if first in kinds: kinds = (first,) + tuple(k for k in kinds if k != first)
+    cuts = sorted(set([len(payload)] + list(range(0, min(len(payload), 48) + 1))), reverse=True)
+    for mt, dt in kinds:
+        for n in cuts:
+            pl = payload[:n]
+            h = bytearray(28); h[1] = 7; h[2:4] = (1).to_bytes(2, 'big'); h[4] = 3; h[5] = mt; h[6:8] = dt.to_bytes(2, 'big'); h[12:16] = (0x01020304).to_bytes(4, 'big')
+            h[16:24] = (0x1122334455667788).to_bytes(8, 'big'); h[24:26] = max(len(pl), 1).to_bytes(2, 'big') if len(pl) <= 65535 else b'\xff\xff'
+            frames.append(bytes(h) + pl)
+    return frames
+
+def tecmp_replay(doc, inp, r, work, root, repo):
+    """C15 / C02 (TECMP): the counterexample's payload bytes are wrapped into TECMP frames of every kind (and every truncation) and decoded natively
+    under ASan/UBSan; the result is compared with an independent TECMP parse"""
+    code = PRE + TECMP_DRIVER
+    exe = build_driver(work, repo, 'drv_tecmp', code)
+    bufs = [bytes.fromhex(o['bytes']) for o in (inp or {}).get('objects', []) if 'bytes' in o]
+    a = (inp or {}).get('args', {})
+    size = a.get('size', a.get('n'))
+    cands = []
+    for b in reversed(bufs):
+        cands.append(b[:size] if isinstance(size, int) and size <= len(b) else b)
+    cands.append(bytes([0, 0, 1, 0x23, 8] + list(range(1, 9)) + [0xAA, 0xBB, 0xCC] + [i & 0xFF for i in range(40)]))     # default: a well-formed CAN payload and tail bytes
+    frames = []
+    if r['name'] == 'h_TECMP_Decoder_Decode' and bufs: frames.append(cands[0])
+    nm = r['name'] + ' ' + (r.get('enforce') or '')
+    first = (3, 4) if 'Lin' in nm else (1, 0) if 'CaptureModule' in nm else (2, 0) if 'Interface' in nm else (3, 2)
+    for c in cands: frames += tecmp_frames(c, first)
+    doc['native_expected'] = 'violations=0 and no sanitizer report'; doc['replay_driver'] = code
+    seen = set()
+    for f in frames:
+        if f in seen: continue
+        seen.add(f)
+        try: p = subprocess.run([exe, f.hex()], stdout=subprocess.PIPE, stderr=subprocess.PIPE, timeout=60, env=dict(os.environ, ASAN_OPTIONS='detect_leaks=0', UBSAN_OPTIONS='halt_on_error=0'))
+        except subprocess.TimeoutExpired:
+            doc['native'] = 'reproduced'; doc['native_call'] = 'Decoder::decode(TECMP frame ' + f.hex() + ')'; doc['native_observed'] = 'no result within 60 s'; doc['replay_argv'] = [f.hex()]; return
+        err = p.stderr.decode()
+        if p.returncode != 0 or 'AddressSanitizer' in err:
+            doc['native'] = 'reproduced'; doc['native_call'] = 'Decoder::decode(TECMP frame ' + f.hex() + ')'
+            doc['native_observed'] = p.stdout.decode()[-600:] + ('' if p.returncode in (0, 3) else ' [exit %d]' % p.returncode); doc['native_stderr'] = san_summary(err); doc['replay_argv'] = [f.hex()]; return
+    doc['native'] = 'not-reproduced'; doc['replay_argv'] = [frames[0].hex()]
+tecmp_replay.optional_trace = True
+
 def family_of(r, root):
     name = r['name']
+    if name.startswith('h_TECMP_'): return tecmp_replay
     if name.startswith(('h_Status_', 'h_DeviceStatus_', 'h_InterfaceStatus_')): return status_replay
     if name.startswith(('h_Payload_op_eq', 'h_TECMP_Payload_op_eq', 'h_Packet_op_eq', 'h_Packet_op_ne', 'h_Packet_copy_assign', 'h_Packet_self_assign')): return value_replay
     if 'Encoder_' in (r['enforce'] or '') or name.startswith('lemma_') and 'batch' in name: return encoder_replay
